@@ -448,6 +448,10 @@ class _Analysis:
             if isinstance(n, ast.Call) and call_name(n) in RECONCILE_CALLS:
                 roots = set()
                 if isinstance(n.func, ast.Attribute):
+                    recv = n.func.value
+                    if isinstance(recv, ast.Attribute) and recv.attr in ("geom", "_geom"):
+                        # shapely's own `line.project(point)` on the raw shapes: a homonym, nothing is re-projected
+                        continue
                     roots |= self.org.roots(n.func.value)
                 for a in n.args:
                     roots |= self.org.roots(a)
